@@ -40,7 +40,11 @@ def lib_calls(fx, row):
     return [e for e in row.events if e[0] == "call" and e[1] not in fx.fns]
 
 
-def fargs(e):
+def fargs(e, eng=None, row=None):
+    """formatted arguments; with (eng, row) pointers to frame locals are replaced by what they point to, so that the text does
+    not depend on MIR local numbering"""
+    if eng is not None:
+        return [sym.fmt(T.resolve_locals(eng, row.store, a)) for a in e[2]]
     return [sym.fmt(a) for a in e[2]]
 
 
@@ -71,7 +75,7 @@ class W:
             f["id"], len(rets), len(others), paths, why), where(f), sample="%s: %d path(s), no other exit" % (f["id"], paths))
         for row in rets:
             lc = local_calls(fx, row)
-            got = [(e[1], fargs(e)) for e in lc]
+            got = [(e[1], fargs(e, eng, row)) for e in lc]
             want = [(d["id"], a) for d, a in delegates]
             self.n += 1
             rep.obligation(got == want, self.key(f, "delegate"), "%s calls %s, expected %s; %s" % (f["id"], got, want, why), where(f),
@@ -132,7 +136,7 @@ def accessors(ctx, rep, roles, P, rule="RW.1"):
     ok = len(rets) == 1 and len(rows) == 1
     if ok:
         row = rets[0]
-        got = [(e[1], fargs(e)) for e in local_calls(fx, row)]
+        got = [(e[1], fargs(e, eng, row)) for e in local_calls(fx, row)]
         ll = [short(e[1]) for e in lib_calls(fx, row)]
         ok = got == [(self_id["id"], ["&self"]), (fd_live["id"], ["&self.failure_detector"])] and ll == ["once", "chain"]
         t = T.resolve_locals(eng, row.store, row.ret)
@@ -174,7 +178,7 @@ def gc_chain(ctx, rep, roles, P, rule="RW.2"):
                        where(mid), sample="iterates node_states.values_mut() without adaptor")
         src = [e for e in lib_calls(fx, row) if short(e[1]) == "values_mut"]
         w.n += 1
-        rep.obligation(bool(src) and fargs(src[0]) == ["&self.node_states"], w.key(mid, "source"), "iterates %s" % (fargs(src[0]) if src else None), where(mid),
+        rep.obligation(bool(src) and fargs(src[0], eng, row) == ["&self.node_states"], w.key(mid, "source"), "iterates %s" % (fargs(src[0]) if src else None), where(mid),
                        sample="source: self.node_states")
     rep.floor("forwarder-obligations", w.n, 8)
     rep.instance(w.n)
@@ -271,7 +275,7 @@ def contains_key(ctx, rep, roles, P, rule="RW.5"):
     seen = {}
     for row in rows:
         lc = local_calls(fx, row)
-        ok = row.exit == "return" and [(e[1], fargs(e)) for e in lc] == [(get["id"], ["&self", "&key"])]
+        ok = row.exit == "return" and [(e[1], fargs(e, eng, row)) for e in lc] == [(get["id"], ["&self", "&key"])]
         v = None
         for c in row.cond:
             if c[0] == "variant" and c[1][0] == "call" and c[1][1] == get["id"] and c[3]:
@@ -320,7 +324,7 @@ def listeners(ctx, rep, roles, P, rule="RW.6"):
     w.n += 1
     rep.obligation(all(any(short(e[1]) == "unwrap" for e in r.calls()) for r in panics), w.key(trig, "exits"),
                    "Listeners::trigger_event has a non-returning path other than lock poisoning", where(trig), sample="only other exit: poisoned lock")
-    w.forward(outer, [(mono, ["&self", "ToString::to_string(&_2#1)#0", "<T>::new(callback)#0"])], lib=["to_string", "new"], why="prefix and callback registered as given")
+    w.forward(outer, [(mono, ["&self", "ToString::to_string(key_prefix)#0", "<T>::new(callback)#0"])], lib=["to_string", "new"], why="prefix and callback registered as given")
     w.forward(chs, [(cs_acc, ["&self"]), (outer, ["&*(%s(&self)#0).listeners" % _disp(cs_acc["id"]), "key_prefix", "callback"])],
               why="subscriptions go to the cluster state's registry (the one every member copy carries, R15.5)")
     rep.floor("forwarder-obligations", w.n, 10)
@@ -390,7 +394,7 @@ def seeds(ctx, rep, roles, P, rule="RW.9"):
     ok = len(rows) == 1 and rows[0].exit == "return" and [short(e[1]) for e in lib_calls(fx, rows[0])] == ["borrow", "deref", "clone"] and not local_calls(fx, rows[0])
     if ok:
         bor = [e for e in lib_calls(fx, rows[0]) if short(e[1]) == "borrow"][0]
-        ok = fargs(bor) == ["&self.seed_addrs"]
+        ok = fargs(bor, eng, rows[0]) == ["&self.seed_addrs"]
     w.n += 1
     rep.obligation(ok, w.key(b, "copy"), "ClusterState::seed_addrs is no longer a plain copy of the watched seed set", where(b), sample="seed_addrs = seed_addrs.borrow().clone()")
     rep.floor("forwarder-obligations", w.n, 5)
